@@ -359,6 +359,12 @@ func (i *interpreter) binop(op token.Token, t types.Type, x, y value) value {
 	if xs || ys {
 		return i.symBinop(op, t, x, y)
 	}
+	if _, ok := x.(symf64); ok {
+		return i.symFloatCmp(op, x, y)
+	}
+	if _, ok := y.(symf64); ok {
+		return i.symFloatCmp(op, x, y)
+	}
 	if op == token.SHL || op == token.SHR {
 		var sh uint64
 		switch y := y.(type) {
@@ -1257,7 +1263,13 @@ func (fr *frame) conv(t_dst, t_src types.Type, x value) value {
 		if tm, ok := x.(*Term); ok {
 			// symbolic integer conversions
 			if db.Info()&types.IsFloat != 0 {
-				panic(abort(abUnsupported, "symbolic integer -> float conversion"))
+				n := fr.concInt(x, t_src, "integer->float conversion")
+				if kindUnsigned(ut_src.Kind()) {
+					r, _ := convFromUint(db.Kind(), uint64(n))
+					return r
+				}
+				r, _ := convFromInt(db.Kind(), n)
+				return r
 			}
 			dk := db.Kind()
 			dw := kindWidth(dk)
@@ -1395,3 +1407,32 @@ func (i *interpreter) sliceToArrayPointer(t_dst, t_src types.Type, x value) valu
 }
 
 var _ = math.Abs
+
+func (i *interpreter) floatBits(v value) *Term {
+	switch f := v.(type) {
+	case symf64:
+		return f.bits
+	case float64:
+		if f != f || f < 0 || (f == 0 && math.Signbit(f)) {
+			panic(abort(abUnsupported, "comparison of a symbolic float with a negative/NaN constant"))
+		}
+		return i.tt.Const(64, math.Float64bits(f))
+	}
+	panic(abort(abUnsupported, fmt.Sprintf("symbolic float comparison with %T", v)))
+}
+
+// symFloatCmp compares non-negative non-NaN floats through their bit patterns.
+func (i *interpreter) symFloatCmp(op token.Token, x, y value) value {
+	a, b := i.floatBits(x), i.floatBits(y)
+	switch op {
+	case token.LSS:
+		return i.termVal(i.tt.Bin(OpULt, a, b))
+	case token.LEQ:
+		return i.termVal(i.tt.Bin(OpULe, a, b))
+	case token.GTR:
+		return i.termVal(i.tt.Bin(OpULt, b, a))
+	case token.GEQ:
+		return i.termVal(i.tt.Bin(OpULe, b, a))
+	}
+	panic(abort(abUnsupported, "symbolic floating-point arithmetic ("+op.String()+")"))
+}
